@@ -12,6 +12,7 @@ import (
 	"strconv"
 	"strings"
 	"sync"
+	"time"
 
 	"github.com/IrineSistiana/mosproxy/internal/dnsmsg"
 	"github.com/miekg/dns"
@@ -543,7 +544,13 @@ func c01upUDPFixed(r *rand.Rand, adv [][]byte) [][2]string {
 			[2]string{"tc-cut-qr0", d(query)},
 			[2]string{"tc-cut-then-valid", d(cut) + "," + d(v0)},
 			[2]string{"garbage-then-tc-cut", d(gar) + "," + d(cut)},
-			[2]string{"tc-cut-65507", d(func() []byte { b, _ := c01upSizedReply(0, 65507); b = append([]byte(nil), b...); b[2] |= 2; b[7]++; return b }())},
+			[2]string{"tc-cut-65507", d(func() []byte {
+				b, _ := c01upSizedReply(0, 65507)
+				b = append([]byte(nil), b...)
+				b[2] |= 2
+				b[7]++
+				return b
+			}())},
 		)
 	}
 	for i, a := range adv {
@@ -830,8 +837,22 @@ func c01upGen(r *rand.Rand, thorough bool, emit func(c, cat string)) {
 			continue
 		}
 		dl := 2500
-		if c01upExpect(c.tr, c01upSplit(c.sc)) != "resp" {
-			dl = 220 + r.Intn(60)
+		// the expectation decodes the scripted payloads with the code under test: a decoder that does not
+		// terminate must show as a hang of THIS case, not of the generator
+		expc := make(chan string, 1)
+		go func(tr, sc string) { expc <- c01upExpect(tr, c01upSplit(sc)) }(c.tr, c.sc)
+		select {
+		case e := <-expc:
+			if e != "resp" {
+				dl = 220 + r.Intn(60)
+			}
+		case <-time.After(20 * time.Second):
+			line := fmt.Sprintf("tr=%s sc=%s dl=%d n=2", c.tr, c.sc, dl)
+			fmt.Fprintf(os.Stderr, "#running\t%s\n", line)
+			outMu.Lock()
+			out.WriteString(line + "\thang\n")
+			out.Flush()
+			os.Exit(3)
 		}
 		n := 2
 		if strings.Contains(c.tr, "pipeline") || c.tr == "udp" {
